@@ -185,6 +185,19 @@ def sweeps(tier, rng):
         var = [p for p in cands if "fvar" in TTFont(p, lazy=True).reader.keys()]
         for p in corpus.pick(rng, var, k // 2) + corpus.pick(rng, [q for q in cands if q not in var], k // 2):
             yield corpus.rel(p), open(p, "rb").read()
+        # CFF2 fonts edited so that the PRIVATE dictionary selects the variation data (vsindex 1) and no charstring says so: a new
+        # VarData with the regions in another order is put in front, the original becomes VarData[1]
+        import copy
+        for p in [q for q in cands if "CFF2" in TTFont(q, lazy=True).reader.keys()][:2 if tier == "quick" else 20]:
+            try:
+                f = TTFont(p); top = f["CFF2"].cff.topDictIndex[0]; vs = top.VarStore.otVarStore
+                if len(vs.VarData) != 1 or len(vs.VarData[0].VarRegionIndex) < 2: continue
+                vd0 = copy.deepcopy(vs.VarData[0]); vd0.VarRegionIndex = list(reversed(vd0.VarRegionIndex))
+                vs.VarData.insert(0, vd0); vs.VarDataCount = len(vs.VarData)
+                for fd in top.FDArray: fd.Private.vsindex = 1
+                b = io.BytesIO(); f.save(b); yield "edited-private-vsindex:" + corpus.rel(p), b.getvalue()
+            except Exception:
+                continue
         for name, fn in (("generated-2axis-gvar", two_axis_font), ("generated-cff-flex", cff_flex_font)):
             try: yield name, fn()
             except Exception as e: yield name + "(build failed %r)" % (e,), None
